@@ -171,7 +171,8 @@ def install(I):
     def commit(I, m, a, dt):
         w = deref(I, a[0]); ix = w.index
         base = committed(I, ix)
-        content = base
+        # what is committed so far, as a set of assets where that is known ('other': foreign documents; 'partial' / 'mixed' stay opaque)
+        content = {'empty': frozenset(), 'cur': CUR}.get(base, base)
         for opn in w.ops:
             if opn == 'clear': content = frozenset()
             else:
@@ -287,6 +288,29 @@ def confirm(c, outs):
         if r['answers'] != r['expected']: return True, f'{prof}: after {c["case"]["crash_names"]} from meta={c["case"]["meta"]} index={c["case"]["index"]} the tool answers {r["answers"]} instead of {r["expected"]}'
         if r.get('meta_current_before_commit'): return True, f'{prof}: meta.json claimed the current data while the index did not serve it'
     return False, 'real build recovers'
+
+def validate(tier, seed, report):
+    """Environment-model validation: sequences the abstract disk model decides (on a correct tree: every one recovers) are
+    realised on the real build -- including the openable-index-with-foreign-content state and crash points -- and the native
+    outcome must agree with the model's; a disagreement makes the run inconclusive rather than trusted."""
+    import replay_client
+    seqs = [(['valid', 'cur', 'other'], ['ok', 'other'], [None, None, None]),
+            ('absent', 'absent', ['committed#1', None, None]),
+            ('garbage', 'broken', ['index-dir-removed#1', 'asset-buffered#2', None]),
+            (['valid', 'cur', 'cur'], ['ok', 'cur'], [None, None, None])]
+    if tier != 'quick':
+        seqs += [(['valid', 'other', 'cur'], ['ok', 'other'], ['delete-all-buffered#1', None, None]), ('absent', ['ok', 'empty'], [None, 'reader-reloaded#1', None])]
+    cases = [{'op': 'open_sequence', 'meta': m, 'index': x, 'crashes': [None] * 4, 'crash_names': cn, 'scratch': harness.CACHE_DIR + '/c15-validate'} for m, x, cn in seqs]
+    outs = replay_client.run_profile(cases, 'dev', timeout=REPLAY_TIMEOUT * len(cases))
+    n = 0
+    for c, o in zip(cases, outs):
+        r = o.get('ok') if isinstance(o, dict) else None
+        if r is None: raise RuntimeError(f'C15 validation: helper could not run {c}: {o}')
+        if r.get('unrealisable'): continue
+        bad, why = confirm({'case': c}, {'dev': o})
+        if bad: report.total['inconclusive'].append(f'environment-model validation: the real build does not recover in a sequence the main run must explain: {why[:300]}')
+        n += 1
+    return n
 
 def known_match(k, c): return True
 
